@@ -262,9 +262,30 @@ class State:
                 per.setdefault(sid, {})[kind] = e
             term = c
             for sid, powers in per.items():
-                term = term * symbol_joint_moment(self.fams[sid], powers)
-            tot = tot + term
+                term = _nmul(term, symbol_joint_moment(self.fams[sid], powers))
+            tot = _nadd(tot, term)
         return tot
+
+
+def _to_mp(x):
+    import mpmath
+
+    if isinstance(x, Fraction):
+        return mpmath.mpf(x.numerator) / mpmath.mpf(x.denominator)
+    return x
+
+
+def _nmul(a, b):
+    """product of exact (Fraction) and/or quadrature (mpmath) numbers"""
+    if isinstance(a, Fraction) and isinstance(b, Fraction):
+        return a * b
+    return _to_mp(a) * _to_mp(b)
+
+
+def _nadd(a, b):
+    if isinstance(a, Fraction) and isinstance(b, Fraction):
+        return a + b
+    return _to_mp(a) + _to_mp(b)
 
 
 def merge(dist):
@@ -609,7 +630,7 @@ def expectation(dist, mono, interp=None, indicator=None):
     for pr, st in dist:
         if indicator is not None and not indicator(st):
             continue
-        tot = tot + pr * st.expect(monomial_value(mono, st, interp))
+        tot = _nadd(tot, _nmul(pr, st.expect(monomial_value(mono, st, interp))))
     return tot
 
 
